@@ -7,6 +7,7 @@ import (
 	"math/rand/v2"
 	"os"
 	"strings"
+	"sync/atomic"
 	"testing"
 	"testing/synctest"
 	"time"
@@ -154,6 +155,283 @@ func TestC10(t *testing.T) {
 		}
 		synctest.Test(t, func(t *testing.T) { c10HeldStop(t, run, k, desc) })
 	}
+	// one side of the split out of rotation (its targets fail their health checks, once or flapping)
+	// while the split is in force: the decision stays a function of the cookie value alone
+	for k := 0; k < run.N(20, 500); k++ {
+		sc := c10OutageGen(run.Rand(n+6000+k), k)
+		if !run.Mine(n+6000+k, sc) {
+			continue
+		}
+		synctest.Test(t, func(t *testing.T) { c10Outage(t, run, sc) })
+	}
+}
+
+// c10OutageScenario: a split is set with both target sets healthy; then every target (or one of two)
+// of ONE side fails its health checks during one or more windows (a flapping side), optionally with
+// a command in the middle. Requests of a fixed panel are sent twice a second all the way through.
+type c10OutageScenario struct {
+	Idx      int      `json:"idx"`
+	Kind     string   `json:"kind"` // side-outage
+	Pct      int      `json:"pct"`
+	Allow    []string `json:"allow,omitempty"`
+	NActive  int      `json:"n_active"`
+	NRollout int      `json:"n_rollout"`
+	Side     string   `json:"side"`    // rollout | active: the side whose targets fail
+	Partial  bool     `json:"partial"` // only the last one of the two targets of that side fails
+	Fault    string   `json:"fault"`   // 503 | 500 | refuse | close | down (probes and proxied connections refused)
+	Windows  [][2]int `json:"windows"` // seconds after the start of the observation, [from, to)
+	Mid      string   `json:"mid,omitempty"`
+	MidTick  int      `json:"mid_tick,omitempty"`
+	Pct2     int      `json:"pct2,omitempty"`
+	Allow2   []string `json:"allow2,omitempty"`
+	Values   []string `json:"values"`
+}
+
+func c10OutageGen(rng *rand.Rand, idx int) c10OutageScenario {
+	sc := c10OutageScenario{Idx: idx, Kind: "side-outage", NActive: 1 + rng.IntN(2), NRollout: 1 + rng.IntN(2), Side: "rollout"}
+	sc.Values = []string{"u1", "u2", "zz9", "user-7", "0123456789abcdef"}
+	for i := 0; i < 4; i++ {
+		sc.Values = append(sc.Values, c10Value(rng))
+	}
+	split := func() (int, []string) {
+		switch rng.IntN(4) {
+		case 0:
+			return 100, nil
+		case 1:
+			return 0, []string{"u1", sc.Values[5]}
+		case 2:
+			return 1 + rng.IntN(99), []string{sc.Values[6]}
+		}
+		return 1 + rng.IntN(99), nil
+	}
+	sc.Pct, sc.Allow = split()
+	if rng.IntN(10) < 3 {
+		sc.Side = "active"
+	}
+	if n := map[string]int{"rollout": sc.NRollout, "active": sc.NActive}[sc.Side]; n == 2 && rng.IntN(3) == 0 {
+		sc.Partial = true
+	}
+	sc.Fault = pick(rng, []string{"503", "503", "500", "refuse", "close", "down"})
+	at := 1 + rng.IntN(3)
+	for i, nw := 0, 1+rng.IntN(3); i < nw; i++ {
+		d := 2 + rng.IntN(4)
+		sc.Windows = append(sc.Windows, [2]int{at, at + d})
+		at += d + 3 + rng.IntN(3)
+	}
+	ticks := 2 * (sc.Windows[len(sc.Windows)-1][1] + 4)
+	if rng.IntN(2) == 0 {
+		sc.Mid = pick(rng, []string{"reset-split", "set-other", "deploy", "rollout-redeploy", "restart", "rollout-stop", "restart"})
+		sc.MidTick = 2*sc.Windows[0][0] + 1 + rng.IntN(ticks-2*sc.Windows[0][0]-2)
+		if rng.IntN(2) == 0 { // inside the first window
+			sc.MidTick = 2*sc.Windows[0][0] + 2 + rng.IntN(2*(sc.Windows[0][1]-sc.Windows[0][0])-2)
+		}
+		if sc.Mid == "set-other" {
+			sc.Pct2, sc.Allow2 = split()
+		}
+	}
+	switch idx { // canonical ones: each kind of split with all rollout targets out of rotation for a while
+	case 0:
+		sc.Pct, sc.Allow, sc.Side, sc.Partial, sc.Fault, sc.Mid = 0, []string{"u1"}, "rollout", false, "503", ""
+	case 1:
+		sc.Pct, sc.Allow, sc.Side, sc.Partial, sc.Fault, sc.Mid = 100, nil, "rollout", false, "refuse", ""
+	case 2:
+		sc.Pct, sc.Allow, sc.Side, sc.Partial, sc.Fault, sc.Mid = 50, nil, "rollout", false, "close", ""
+	case 3:
+		sc.Pct, sc.Allow, sc.Side, sc.Partial, sc.Fault, sc.Mid = 100, nil, "active", false, "503", ""
+	}
+	return sc
+}
+
+// c10Outage judges by what is certain whatever the health of the targets: a response that WAS served
+// by a target shows the side the request went to, and that side must be the one the cookie value
+// decides (exactly known for 100%, 0%, allowlisted values and requests without the cookie; for other
+// percentages the same side every time while the split is unchanged). A request that nobody could
+// serve (503/502 while its side is out) shows nothing and is only counted. Outside the windows (from
+// two seconds after the end of one - the probe interval is one second - to the start of the next) and
+// throughout when a healthy target of the side remains, requests must be served, as everywhere else
+// in this check.
+func c10Outage(t *testing.T, run *Run, sc c10OutageScenario) {
+	w := NewWorld(t, WorldOpt{})
+	defer w.Close()
+	run.Eval()
+	const svc = "svc"
+	fail := func(sig, format string, a ...any) {
+		run.Violate(sig, fmt.Sprintf(format, a...), sc, func() []string { return w.Trace(120) })
+	}
+	var base atomic.Int64
+	inWindow := func(at time.Duration) bool {
+		b := time.Duration(base.Load())
+		if b == 0 {
+			return false
+		}
+		for _, win := range sc.Windows {
+			if at >= b+time.Duration(win[0])*time.Second && at < b+time.Duration(win[1])*time.Second {
+				return true
+			}
+		}
+		return false
+	}
+	bad := map[string]ProbeAct{"503": {Status: 503}, "500": {Status: 500}, "refuse": {Refuse: true}, "close": {Close: true}, "down": {Refuse: true}}[sc.Fault]
+	faulty := func(n int, at time.Duration) ProbeAct {
+		if inWindow(at) {
+			return bad
+		}
+		return ProbeAct{Status: 200}
+	}
+	var faulted []*FakeTarget
+	names := func(prefix string, n int, side string) []string {
+		var out []string
+		for i := 0; i < n; i++ {
+			name := fmt.Sprintf("%s-t%d:80", prefix, i)
+			if sc.Side == side && (!sc.Partial || i == n-1) {
+				faulted = append(faulted, w.AddTarget(name, faulty))
+			} else {
+				w.AddTarget(name, nil)
+			}
+			out = append(out, name)
+		}
+		return out
+	}
+	if c := w.Deploy(svc, names("a1", sc.NActive, "active"), DefSO, DefTO, 5*time.Second, time.Second); c.Err != "" {
+		run.Inconclusive("setup: %s", c.Err)
+		return
+	}
+	if c := w.RolloutDeploy(svc, names("r1", sc.NRollout, "rollout"), 5*time.Second, time.Second); c.Err != "" {
+		run.Inconclusive("setup: %s", c.Err)
+		return
+	}
+	if c := w.RolloutSet(svc, sc.Pct, sc.Allow); c.Err != "" || c.Panic != "" {
+		fail("rollout-set-failed", "rollout set %d %v failed: %s %s", sc.Pct, sc.Allow, c.Err, c.Panic)
+		return
+	}
+	cur := w.Primary()
+	pct, allow, stopped := sc.Pct, sc.Allow, false
+	want := func(v string) string { // "" = not fixed by the statement without knowing the hash: learnt
+		switch {
+		case v == "" || stopped:
+			return "a"
+		case pct == 100 || contains(allow, v):
+			return "r"
+		case pct == 0:
+			return "a"
+		}
+		return ""
+	}
+	seen := map[string]string{} // value -> side it was served by under the split in force
+	healed := false             // the failing targets were replaced by a command in the middle
+	b0 := w.Now() + time.Second
+	base.Store(int64(b0))
+	ticks := 2 * (sc.Windows[len(sc.Windows)-1][1] + 4)
+	nreq, unserved, stormTicks := 0, 0, 0
+	for k := 0; k < ticks; k++ {
+		at := b0 + time.Duration(k)*500*time.Millisecond + 250*time.Millisecond + OffArrival
+		w.SleepUntil(at)
+		if sc.Fault == "down" {
+			for _, ft := range faulted {
+				ft.mu.Lock()
+				ft.RefuseProxy = inWindow(at)
+				ft.mu.Unlock()
+			}
+		}
+		if sc.Mid != "" && k == sc.MidTick {
+			var err error
+			switch sc.Mid {
+			case "reset-split":
+				err = cur.Router.SetRolloutSplit(svc, pct, allow)
+			case "set-other":
+				if err = cur.Router.SetRolloutSplit(svc, sc.Pct2, sc.Allow2); err == nil {
+					pct, allow, seen = sc.Pct2, sc.Allow2, map[string]string{}
+				}
+			case "rollout-stop":
+				if err = cur.Router.StopRollout(svc); err == nil {
+					stopped, seen = true, map[string]string{}
+				}
+			case "deploy":
+				w.AddTarget("a2-t0:80", nil)
+				err = cur.Router.DeployService(svc, []string{"a2-t0:80"}, DefSO, DefTO, 5*time.Second, time.Second)
+				healed = healed || (err == nil && sc.Side == "active")
+			case "rollout-redeploy":
+				w.AddTarget("r2-t0:80", nil)
+				err = cur.Router.SetRolloutTargets(svc, []string{"r2-t0:80"}, 5*time.Second, time.Second)
+				healed = healed || (err == nil && sc.Side == "rollout")
+			case "restart":
+				p2 := w.NewProxy(w.CopyStateOf(cur.StatePath))
+				if err = p2.Router.RestoreLastSavedState(); err == nil {
+					cur = p2
+				}
+			}
+			if err != nil {
+				if sc.Mid == "reset-split" || sc.Mid == "set-other" {
+					fail("rollout-set-rejected", "tick %d: rollout set rejected (%v) although rollout targets exist", k, err)
+				} else {
+					run.Inconclusive("side-outage: %s in the middle failed: %v", sc.Mid, err)
+				}
+				return
+			}
+		}
+		// calm: every target has had a passing probe since the last window (or none has failed yet)
+		calm := healed || sc.Partial && sc.Fault != "down"
+		if !calm {
+			calm = true
+			b := b0
+			for _, win := range sc.Windows {
+				if at >= b+time.Duration(win[0])*time.Second && at < b+time.Duration(win[1]+2)*time.Second {
+					calm = false
+				}
+			}
+		}
+		if !calm {
+			stormTicks++
+		}
+		for _, v := range append([]string{""}, sc.Values...) {
+			nreq++
+			r := Req{ID: fmt.Sprintf("o%d", nreq), Host: "c10.example", Path: "/"}
+			if v != "" {
+				r.Hdr = [][2]string{{"Cookie", "kamal-rollout=" + v}}
+			}
+			resp := cur.Do(r)
+			s := ""
+			if resp.Status == 200 && resp.Target != "" {
+				s = resp.Target[:1]
+			}
+			state := fmt.Sprintf("split %d%% allowlist %v (stopped=%v); %s targets (%s) failing their health checks (%s) in the windows %v s after %v; tick %d at %v",
+				pct, allow, stopped, sc.Side, map[bool]string{true: "one of two", false: "all"}[sc.Partial], sc.Fault, sc.Windows, b0, k, at)
+			if s == "" {
+				if calm {
+					fail("request-failed", "cookie value %q: status=%d err=%s although every side has healthy targets [%s]", v, resp.Status, resp.Err, state)
+					return
+				}
+				unserved++
+				continue
+			}
+			if exp := want(v); exp != "" && s != exp {
+				sig := "side-outage:excluded-request-served-by-rollout"
+				if exp == "r" {
+					sig = "side-outage:included-request-served-by-active"
+				}
+				fail(sig, "cookie value %q (\"\" = no cookie) belongs to side %q but was served by %s [%s]", v, exp, resp.Target, state)
+				return
+			}
+			if prev, ok := seen[v]; ok && prev != s {
+				fail("side-outage:not-sticky", "cookie value %q was served by side %q earlier and by %s now, with the split unchanged [%s]", v, prev, resp.Target, state)
+				return
+			}
+			seen[v] = s
+		}
+	}
+	run.Count("side_outage_requests", nreq)
+	run.Count("side_outage_unserved", unserved)
+	kind := "pct"
+	switch {
+	case sc.Pct == 100:
+		kind = "100"
+	case sc.Pct == 0:
+		kind = "0+allow"
+	case len(sc.Allow) > 0:
+		kind = "pct+allow"
+	}
+	run.Class(fmt.Sprintf("side-outage|side=%s|all=%v|fault=%s|split=%s|windows=%d|mid=%s|unserved=%v", sc.Side, !sc.Partial, sc.Fault, kind, len(sc.Windows), sc.Mid, unserved > 0))
+	run.Sample(map[string]any{"kind": "side-outage", "scenario": sc, "requests": nreq, "unserved": unserved, "storm_ticks": stormTicks})
 }
 
 // c10HeldStop: "all requests ... after `rollout stop` go to the active targets" - also the ones that
